@@ -12,12 +12,12 @@ CONSTANT Shapes
 VARIABLES shape, types, fl, v
 N1 == CHOOSE n \in Names : TRUE
 Mk == WithModuleGlobals([i \in 1..Len(shape) |-> [type |-> types[i], parent |-> shape[i], flags |-> [n \in Names |-> fl[i]]]])
-Valid == /\ types[1] = "module" /\ \A i \in 2..Len(shape) : types[i] # "module"
-         /\ \A i \in 1..Len(shape) : ("P" \in fl[i]) => types[i] = "function"
+TypesOK == types[1] = "module" /\ \A i \in 2..Len(shape) : types[i] # "module"
+ParamsOK == \A i \in 1..Len(shape) : ("P" \in fl[i]) => types[i] = "function"
 Init == /\ shape \in Shapes
-        /\ types \in [1..Len(shape) -> {"module", "function", "class"}]
-        /\ fl \in [1..Len(shape) -> (IF Len(shape) = 4 THEN Flags4 ELSE FlagSets)]
-        /\ Valid /\ v = "todo"
+        /\ types \in [1..Len(shape) -> {"module", "function", "class"}] /\ TypesOK
+        /\ fl \in [1..Len(shape) -> (IF Len(shape) = 4 THEN Flags4 ELSE FlagSets)] /\ ParamsOK
+        /\ v = "todo"
 Check == LET B == Mk r == Analyze(B, UniformOrd(B, <<N1>>)) IN
          IF (r.err # "") # ErrorD(B, N1) THEN "error presence"
          ELSE IF r.err # "" THEN "ok"
